@@ -22,6 +22,8 @@ var verifCorpus = [...]string{
 	"{ \x01}", "( \x01)", "if a; then\x01 fi", "while a; do\x01 done", "a() {\x01 }", "case a in b)\x01 esac", "for i in\x01; do a; done",
 	"{a\x01}>b", "{a[1\x01}<b", "a {b}>\x01c", "a {b\x01}<&-", "${a:\x01:2}", "${a::\x01}", "${a:1:\x01}", "${a[@]:\x01:1}", "${!a\x01}", "${a/b/\x01}", "${a//\x01/c}", "${a^\x01}", "${a@\x01}",
 	"declare -\x01 a=b", "local a\x01 b=c", "readonly a=(b\x01)", "export -p\x01", "[[ a != \"$x\"\x01 ]]", "[[ a == \x01\"$x\" ]]", "[[ $a =~ b\x01 ]]", "[ a \x01= b ]", "echo $((${a}\x01 + 1))", "echo $(($a\x01))", "a=$(($b\x01))",
+	// several comments before and after statements, case items and array elements
+	"a # b\x01\nc", "# a\n# b\x01\nc # d\n# e\n", "case a in\nb)\n\tc\n\t;;\n\t#d\n#e\x01\n\t#f\ng) ;;\nesac", "case a in\n#b\x01\n#c\nd) ;; #e\n#f\nesac", "a=(\n\tb # c\x01\n\t# d\n\t# e\n)", "a=(\n\t# b\n\t# c\x01\n\td\n)", "if a; then # b\x01\n\t# c\n\td\nfi # e", "{ # a\x01\n\tb # c\n\t# d\n}", "for i in a # b\x01\ndo c; done",
 	"coproc a { b\x01 }", "time a\x01 b", "select i in a\x01 do b; done", "a() ( b\x01 )", "eval \"a\x01\"", "trap 'a\x01' EXIT", "((a\x01))", "(( a ? b \x01 c ))", "$[a\x01b]",
 }
 
